@@ -71,6 +71,14 @@ func parseTimeZone(tz string) (*time.Location, error) {
 		return nil, fmt.Errorf("invalid timezone")
 	}
 
+	// the remaining characters must be digits (Atoi alone
+	// would also accept a sign, e.g. "+-1-1").
+	for _, c := range tz[1:] {
+		if c < '0' || c > '9' {
+			return nil, fmt.Errorf("invalid timezone")
+		}
+	}
+
 	// take the first two digits as "HH"
 	hours, err := strconv.Atoi(tz[1:3])
 	if err != nil {
@@ -79,7 +87,7 @@ func parseTimeZone(tz string) (*time.Location, error) {
 
 	// take the last two digits as "MM"
 	minutes, err := strconv.Atoi(tz[3:5])
-	if err != nil {
+	if err != nil || minutes > 59 {
 		return nil, fmt.Errorf("invalid timezone")
 	}
 
